@@ -153,6 +153,8 @@ type Sim struct {
 	callCount map[int]int
 	steps     []Step
 	histTrees []mkvs.Tree
+	// stepViol is a violation found inside an interleaved step (reported after the block).
+	stepViol *core.Violation
 	// cc is the chain-level crash state (C07 chaincrash batch; nil-valued and inert otherwise).
 	cc chainCrash
 	// States are the CometBFT states after each height (what a light client would reconstruct
@@ -559,6 +561,30 @@ func (s *Sim) runStep(r *Replica, stp Step, at string) {
 		}
 	case "prune":
 		if p, ok := r.srv.Pruner().(abci.StatePruner); ok && r.State.LastBlockHeight > 0 && r.Cfg.PruneKeep > 0 && !r.Cfg.MemoryOnly {
+			if s.Prop == "C06" && s.stepViol == nil {
+				// The retained height that the application reports to CometBFT (which then discards
+				// the blocks below it) may only advance once a prune pass has synced the database:
+				// while versions are being pruned, a block commit still has to see the old value.
+				before, _ := r.srv.State().LastRetainedVersion()
+				// (The pruner initialises its retained version lazily, at the start of its first
+				// pass, to the earliest version the database holds: that is not an advance.)
+				if e := int64(r.srv.State().Storage().NodeDB().GetEarliestVersion()); e > before {
+					before = e
+				}
+				gid := goid()
+				verifhook.SetHandler(func(name string) {
+					if goid() != gid || !(strings.Contains(name, ".Prune.") || name == "abci.pruner.beforeSync") || s.stepViol != nil {
+						return
+					}
+					s.St.Inc("probe.chainhistory.retained_height_read_inside_prune_pass")
+					if now, _ := r.srv.State().LastRetainedVersion(); now > before {
+						s.stepViol = cViol("C06", "retained-height-ahead-of-sync", "retained-height-ahead-of-sync", fmt.Sprintf("replica %d (%s, prune_keep=%d): in the middle of a prune pass (at %s, before the pass synced the database) the application already reports retained height %d to the consensus engine (the earliest version held when the pass began was %d)", r.Idx, r.Cfg.Backend, r.Cfg.PruneKeep, name, now, before))
+					}
+				})
+				_ = p.Prune(uint64(r.State.LastBlockHeight))
+				verifhook.SetHandler(nil)
+				break
+			}
 			_ = p.Prune(uint64(r.State.LastBlockHeight))
 		}
 	}
@@ -1008,6 +1034,9 @@ func (s *Sim) produceBlock(opIdx int, b *BlockOp) *core.Violation {
 			}
 		}
 		cl()
+	}
+	if s.stepViol != nil {
+		return s.stepViol
 	}
 	for _, o := range s.Oracles {
 		if v := o.AfterBlock(s, h, blk, built, refRes); v != nil {
